@@ -504,7 +504,7 @@ fn auth_case(r: &mut Rng, g: &mut ExprGen, out: &mut Out, idx: u64) {
         let Some(got) = ffi_auth(&call, out, &desc, idx % 3 == 0) else { continue };
         let want = match guard(|| ref_auth(&wj, &schema, validate, &doc.reference)) {
             Ok(Ok(s)) => s,
-            Ok(Err(e)) => { out.count(&format!("auth_failure_because_{}", e.chars().take(if e.starts_with("error during entity") { 140 } else { 48 }).collect::<String>().replace('\n', " "))); "failure".to_string() }
+            Ok(Err(e)) => { out.count(&format!("auth_failure_because_{}", e.chars().take(48).collect::<String>().replace('\n', " "))); "failure".to_string() }
             Err(p) => { out.propfail("panic in the API route", &desc, &p); continue; }
         };
         out.count("auth_calls");
